@@ -26,8 +26,13 @@ TITLES = [b"a", b"b c", b"it's", b"back\\slash", b"p|q", b"x=y", b"Alpha"]
 def hand():
     leaf = [Opt("x", "int", 0, 1), Opt("y", "str", 0, b"d"), Opt("xs", "int", LIST, [b"1"])]
     inner = leaf + [Opt("in", "sec", MULTI, None, "-", leaf), Opt("tin", "sec", MULTI | TITLE, None, "-", leaf), Opt("one", "sec", 0, None, "-", leaf)]
+    # names that are prefixes of one another, the longer one declared first: a step must match a whole name
+    pleaf = [Opt("lev", "int", 0, 2), Opt("level", "int", 0, 3), Opt("le", "str", 0, b"e")]
+    pre = [Opt("net6", "sec", MULTI | TITLE, None, "-", pleaf), Opt("net", "sec", MULTI | TITLE, None, "-", pleaf),
+           Opt("ne", "sec", 0, None, "-", pleaf + [Opt("subsec", "sec", MULTI, None, "-", pleaf), Opt("sub", "sec", MULTI, None, "-", pleaf)]),
+           Opt("n", "sec", MULTI, None, "-", pleaf), Opt("logfile", "str", 0, b"f"), Opt("log", "sec", 0, None, "-", pleaf)]
     return [[Opt("top", "int", 0, 0), Opt("multi", "sec", MULTI, None, "-", inner), Opt("titled", "sec", MULTI | TITLE, None, "-", inner),
-             Opt("single", "sec", 0, None, "-", inner)]]
+             Opt("single", "sec", 0, None, "-", inner)], pre]
 
 
 class Node:
